@@ -41,7 +41,13 @@ def esc (s : List Char) : List Char := s.flatMap escChar
 
 def renderStr (s : List Char) : List Char := '"' :: esc s ++ ['"']
 
-def renderNat (n : Nat) : List Char := (Nat.repr n).toList
+def digitChar (d : Nat) : Char := Char.ofNat (48 + d)
+
+/-- decimal rendering of `str(int)` for non-negative ints -/
+def renderNat (n : Nat) : List Char :=
+  if n < 10 then [digitChar n] else renderNat (n / 10) ++ [digitChar (n % 10)]
+termination_by n
+decreasing_by omega
 
 def renderVal : JVal → List Char
   | .str s => renderStr s
@@ -65,5 +71,121 @@ def renderObj (o : JObj) : List Char :=
 
 def renderList (l : List JObj) : List Char :=
   '[' :: commaSep (l.map renderObj) ++ [']']
+
+/-! ### parser (the `json.load` of `Tree.load`, for the shapes above) -/
+
+def hexVal (c : Char) : Option Nat :=
+  let n := c.toNat
+  if 48 ≤ n ∧ n ≤ 57 then some (n - 48)
+  else if 97 ≤ n ∧ n ≤ 102 then some (n - 87)
+  else none
+
+def parseHex4 (a b c d : Char) : Option Nat := do
+  let x3 ← hexVal a; let x2 ← hexVal b; let x1 ← hexVal c; let x0 ← hexVal d
+  pure (x3 * 4096 + x2 * 256 + x1 * 16 + x0)
+
+/-- decode one (possibly escaped) character from the front -/
+def unescOne : List Char → Option (Char × List Char)
+  | '\\' :: '"' :: r => some ('"', r)
+  | '\\' :: '\\' :: r => some ('\\', r)
+  | '\\' :: 'n' :: r => some ('\n', r)
+  | '\\' :: 'r' :: r => some ('\r', r)
+  | '\\' :: 't' :: r => some ('\t', r)
+  | '\\' :: 'b' :: r => some (Char.ofNat 8, r)
+  | '\\' :: 'f' :: r => some (Char.ofNat 12, r)
+  | '\\' :: 'u' :: a :: b :: c :: d :: r =>
+    match parseHex4 a b c d with
+    | none => none
+    | some v =>
+      if 55296 ≤ v ∧ v < 56320 then
+        match r with
+        | '\\' :: 'u' :: e :: f :: g :: h :: r' =>
+          match parseHex4 e f g h with
+          | none => none
+          | some w => if 56320 ≤ w ∧ w < 57344 then some (Char.ofNat (65536 + (v - 55296) * 1024 + (w - 56320)), r') else none
+        | _ => none
+      else some (Char.ofNat v, r)
+  | '\\' :: _ => none
+  | '"' :: _ => none
+  | c :: r => some (c, r)
+  | [] => none
+
+/-- read a string body up to the closing quote -/
+def unescFuel : Nat → List Char → Option (List Char × List Char)
+  | 0, _ => none
+  | _+1, '"' :: r => some ([], r)
+  | n+1, l =>
+    match unescOne l with
+    | none => none
+    | some (c, r) =>
+      match unescFuel n r with
+      | none => none
+      | some (s, r') => some (c :: s, r')
+
+def parseStrLit (fuel : Nat) : List Char → Option (List Char × List Char)
+  | '"' :: r => unescFuel fuel r
+  | _ => none
+
+def isDigit (c : Char) : Bool := 48 ≤ c.toNat && c.toNat ≤ 57
+
+def digitsVal (ds : List Char) : Nat := ds.foldl (fun acc c => acc * 10 + (c.toNat - 48)) 0
+
+def parseNat (l : List Char) : Option (Nat × List Char) :=
+  let ds := l.takeWhile isDigit
+  if ds.isEmpty then none else some (digitsVal ds, l.dropWhile isDigit)
+
+def parseVal (fuel : Nat) : List Char → Option (JVal × List Char)
+  | '"' :: r => (unescFuel fuel r).map fun p => (.str p.1, p.2)
+  | 't' :: 'r' :: 'u' :: 'e' :: r => some (.bool true, r)
+  | 'f' :: 'a' :: 'l' :: 's' :: 'e' :: r => some (.bool false, r)
+  | 'n' :: 'u' :: 'l' :: 'l' :: r => some (.null, r)
+  | l => (parseNat l).map fun p => (.int p.1, p.2)
+
+/-- `"key": value` -/
+def parseMember (fuel : Nat) (l : List Char) : Option ((List Char × JVal) × List Char) :=
+  match parseStrLit fuel l with
+  | some (k, ':' :: ' ' :: r) => (parseVal fuel r).map fun p => ((k, p.1), p.2)
+  | _ => none
+
+/-- members after the first, up to and including the closing brace -/
+def parseMembersTail : Nat → List Char → Option (JObj × List Char)
+  | 0, _ => none
+  | _+1, '}' :: r => some ([], r)
+  | f+1, ',' :: ' ' :: r =>
+    match parseMember (f+1) r with
+    | some (m, r') => (parseMembersTail f r').map fun p => (m :: p.1, p.2)
+    | none => none
+  | _+1, _ => none
+
+def parseObj (fuel : Nat) : List Char → Option (JObj × List Char)
+  | '{' :: '}' :: r => some ([], r)
+  | '{' :: r =>
+    match parseMember fuel r with
+    | some (m, r') => (parseMembersTail fuel r').map fun p => (m :: p.1, p.2)
+    | none => none
+  | _ => none
+
+def parseObjsTail : Nat → List Char → Option (List JObj × List Char)
+  | 0, _ => none
+  | _+1, ']' :: r => some ([], r)
+  | f+1, ',' :: ' ' :: r =>
+    match parseObj (f+1) r with
+    | some (o, r') => (parseObjsTail f r').map fun p => (o :: p.1, p.2)
+    | none => none
+  | _+1, _ => none
+
+/-- a JSON list of flat objects, nothing after it -/
+def parseList (l : List Char) : Option (List JObj) :=
+  let fuel := l.length + 1
+  match l with
+  | '[' :: ']' :: [] => some []
+  | '[' :: r =>
+    match parseObj fuel r with
+    | some (o, r') =>
+      match parseObjsTail fuel r' with
+      | some (os, []) => some (o :: os)
+      | _ => none
+    | none => none
+  | _ => none
 
 end DvcData.Json
